@@ -1141,17 +1141,27 @@ impl TryFrom<&mut Peekable<Lexer>> for ParserNode {
                             lex.raw_token,
                         )),
                         DirectiveToken::Macro => {
-                            // macros are unsupported
-                            // we will just ignore them until the we reach endmacro
-                            loop {
-                                let next = lex.get_any()?;
-                                if let TokenType::Directive(dir2) = next.token_type() {
-                                    if let Ok(new_dir) = DirectiveToken::from_str(dir2) {
-                                        if new_dir == DirectiveToken::EndMacro {
-                                            break;
-                                        }
-                                    }
-                                }
+                            // macros are unsupported: a macro is ignored up to its
+                            // .endmacro (whatever its lines contain). A macro that is
+                            // not closed before the next .macro or the end of the file
+                            // is only this line: the rest of the file must not vanish
+                            let is = |t: &Result<Token, LexError>, which: &DirectiveToken| {
+                                matches!(t, Ok(t) if matches!(t.token_type(),
+                                    TokenType::Directive(d) if DirectiveToken::from_str(d).as_ref() == Ok(which)))
+                            };
+                            let closed = lex
+                                .lexer
+                                .clone()
+                                .find(|t| {
+                                    is(t, &DirectiveToken::EndMacro) || is(t, &DirectiveToken::Macro)
+                                })
+                                .is_some_and(|t| is(&t, &DirectiveToken::EndMacro));
+                            if closed {
+                                while lex
+                                    .lexer
+                                    .next()
+                                    .is_some_and(|t| !is(&t, &DirectiveToken::EndMacro))
+                                {}
                             }
                             Err(LexError::IgnoredWithWarning(Box::new(next_node)))
                         }
